@@ -1,6 +1,7 @@
 import SJ.Proofs.Tables
 import SJ.Proofs.F64Round
 import SJ.Proofs.Number
+import SJ.Proofs.GoNumber
 /-
 C03 — Numbers get the documented type and the exact value.
 -/
@@ -63,5 +64,21 @@ open SJ.F64Round SJ.F64 in
 /-- exactly representable values are fixed points of the rounding -/
 theorem C03_round_exact (b : UInt64) (m : Nat) (e : Int) (h : F64.decode b = .fin false m e) (hm : m ≠ 0) :
     F64.roundPos m e false = some b := roundPos_decode b m e h hm
+
+open SJ.GoSem SJ.GoNumber in
+/-- **Source tie** (DESIGN §6.3). `parseNumber` of `parse_number_amd64.go`, printed from /repo on every run, means
+    under `GoSem.exec` exactly the `parseNumber` of the hand model that `C03_integer_literal`, `C03_agrees_with_spec`
+    and `C03_rejects` are about — same tag, same value word, tag 0 exactly when the model rejects; for every buffer,
+    start position and fuel. -/
+theorem C03_parseNumber_follows_source (buf : Bytes) (start : Nat) (fuel : Nat) (tape : Array UInt64) :
+    (∃ s, runFun goFuns goparseNumber fuel ⟨[("buf", .bytes (buf.extract start buf.size))], tape⟩ =
+        .ret s (enc (parseNumber buf start)) ∧ s.tape = tape) ∧
+    (∀ id val, parseNumber buf start = some (id, val) ↔
+      id ≠ 0 ∧ ∃ s, runFun goFuns goparseNumber fuel ⟨[("buf", .bytes (buf.extract start buf.size))], tape⟩ =
+        .ret s [.u64 id, .u64 val]) ∧
+    (parseNumber buf start = none ↔
+      ∃ s, runFun goFuns goparseNumber fuel ⟨[("buf", .bytes (buf.extract start buf.size))], tape⟩ =
+        .ret s [.u64 0, .u64 0]) :=
+  ⟨parseNumber_sim buf start fuel tape, parseNumber_some_iff buf start fuel tape, parseNumber_none_iff buf start fuel tape⟩
 
 end SJ.Properties.C03
